@@ -1050,3 +1050,379 @@ def take_not_restored(lazy, resolved, eager):
             return all(any(ok(rk, ek) and ok(rv, evv) for ek, evv in e[1]) for rk, rv in r[1])
         return r == e
     return all(ok(parse_tree_tokens(r)[0], parse_tree_tokens(e)[0]) for r, e in zip(rd, ed))
+
+
+# ---------------------------------------------------------------------------------------------
+# C08: scalar resolution
+
+ALPHA32 = list("01789+-.eExoafAF_nulNULtrsiI~T")
+CORE = hx('tag:yaml.org,2002:')
+
+
+def f64bits(den):
+    import struct
+    if den == 'nan':
+        return 0x7ff8000000000000
+    try:
+        f = float(den)
+    except (ValueError, OverflowError):
+        return None
+    return struct.unpack('>Q', struct.pack('>d', f))[0]
+
+
+def core_check(text, r, c):
+    """untagged plain scalar: implementation result `r` against the core-schema reading `c`"""
+    I64 = (-(1 << 63), (1 << 63) - 1)
+    cf = c.split(' ')
+    cint = next((int(x[4:]) for x in cf if x.startswith('int:')), None)
+    cflt = next((x[6:] for x in cf if x.startswith('float:')), None)
+    if r == 'BAD':
+        return 'BadValue for an untagged scalar'
+    if r == 'N':
+        return None if c == 'null' else 'null for a text that is not a core-schema null'
+    if r.startswith('B:'):
+        return None if c == 'bool:' + r[2:] else 'boolean for a text that is not that core-schema boolean'
+    if r.startswith('I:'):
+        return None if cint is not None and cint == int(r[2:]) else f'integer {r[2:]} but the core schema reads {c}'
+    if r.startswith('D:'):
+        if cflt is None:
+            return f'float for a text the core schema reads as {c}'
+        return None if f64bits(cflt) == int(r[2:], 16) else f'float bits {r[2:]} differ from the value of {cflt}'
+    if r.startswith('S:'):
+        if unhx(r[2:]) != text:
+            return 'string content differs from the text'
+        # completeness for the spellings the property lists
+        if text in ('null', '~', 'true', 'false'):
+            return 'a JSON literal / ~ was left a string'
+        if cint is not None and I64[0] <= cint <= I64[1]:
+            return 'an integer literal within 64 bits was left a string'
+        if cint is None and cflt is not None:
+            return 'a float literal was left a string'
+        return None
+    return 'unparsable answer ' + r
+
+
+def tagged_check(text, tag, r, c, untagged):
+    I64 = (-(1 << 63), (1 << 63) - 1)
+    cf = c.split(' ')
+    cint = next((int(x[4:]) for x in cf if x.startswith('int:')), None)
+    cflt = next((x[6:] for x in cf if x.startswith('float:')), None)
+    dec = text.lstrip('+-').isdigit() and text.isascii() and cint is not None and not text.startswith(('0x', '0o'))
+    if tag == 'int':
+        if r.startswith('I:'):
+            return None if cint == int(r[2:]) else 'under !!int: value disagrees with the untagged reading'
+        if r == 'BAD':
+            return 'under !!int: a decimal integer within 64 bits was rejected' if dec and I64[0] <= cint <= I64[1] else None
+        return 'under !!int: result is neither an integer nor BadValue'
+    if tag == 'float':
+        if r.startswith('D:'):
+            if cflt is None:
+                return 'under !!float: value for a text that is not a core-schema number'
+            return None if f64bits(cflt) == int(r[2:], 16) else 'under !!float: value disagrees with the text'
+        if r == 'BAD':
+            isdecfloat = cflt is not None and cflt not in ('inf', '-inf', 'nan') and not text.startswith(('0x', '0o'))
+            return 'under !!float: a decimal number was rejected' if isdecfloat else None
+        return 'under !!float: result is neither a float nor BadValue'
+    if tag == 'bool':
+        if r.startswith('B:'):
+            return None if c == 'bool:' + r[2:] else 'under !!bool: value disagrees with the untagged reading'
+        if r == 'BAD':
+            return 'under !!bool: true/false was rejected' if text in ('true', 'false') else None
+        return 'under !!bool: result is neither a boolean nor BadValue'
+    if tag == 'null':
+        if r == 'N':
+            return None if c == 'null' else 'under !!null: null for a text that is not a null spelling'
+        if r == 'BAD':
+            return 'under !!null: null/~ was rejected' if text in ('null', '~') else None
+        return 'under !!null: result is neither null nor BadValue'
+    return None
+
+
+def d5_sig(text, why):
+    """narrow signatures of D5: std parsers accept spellings the core schema does not"""
+    import re
+    t = text
+    if re.fullmatch(r'0[xo][+-][0-9a-fA-F]+', t) or re.fullmatch(r'\+[+-][0-9]+', t):
+        return 'C08:double-sign-integer'
+    if re.fullmatch(r'[+-]?(inf|infinity|nan)', t, re.I):
+        return 'C08:inf-nan-words'
+    return None
+
+
+@prop('C08', ["the core-schema recognisers of Spec/CoreSchema.lean are evaluated by the Lean driver on every text; float values are compared as binary64 bits of the correctly rounded decimal (Python's float) — correct rounding of f64::from_str is trusted to core",
+              "theorems registered: see Props/C08.lean"])
+def c08(tier, rng):
+    res = Result()
+    L = 4 if tier == 'quick' else 5
+    res.rule = f"every string of length <= {L} over a 30-symbol core-schema alphabet as untagged plain scalar; every string of length <= {L-1} x 5 styles x 7 tags; boundary integers around +-2^63; random longer strings; non-trivial = the core schema or the resolver reads the text as something other than a string; distinct by (text, style, tag)"
+    res.corr_ops = ['res (all styles and tags)']
+    res.exhaustive = True
+    texts = list(exhaustive(ALPHA32, L))
+    b = 1 << 63
+    bound = [str(x) for d in range(-3, 4) for x in (b + d, -b + d, (1 << 64) + d)] + ['+' + str(b - 1), '+' + str(b), '0x' + '%x' % (b - 1), '0x' + '%x' % b,
+             '0x' + 'f' * 16, '0o' + '7' * 21, '0o1' + '0' * 21, '0o' + '7' * 22, '-0x1', '0x-1', '0x+1', '0o-7', '0o+7', '+-5', '++5', '-+5', '--5', '1e400', '-1e400', '1e-400',
+             '1.7976931348623157e308', '1.7976931348623159e308', '4.9e-324', '2.5e-324', '0.1', '.5', '5.', '+.5', '-.5e-3', '1_000', '0b101', '1e', 'e1', '.e1', '1.e1', '0.0', '-0', '-0.0', '+0',
+             'inf', '-inf', '+inf', 'Inf', 'INF', 'infinity', 'Infinity', '-Infinity', 'nan', 'NaN', 'NAN', '-nan', '.inf', '-.inf', '+.inf', '.Inf', '.INF', '.nan', '.NaN', '.NAN', '.Nan', '.iNF',
+             'null', 'Null', 'NULL', 'nULL', '~', 'true', 'True', 'TRUE', 'false', 'False', 'FALSE', 'yes', 'no', 'on', 'off', '', ' 1', '1 ', '0x', '0o', '0x1G', '0o8', '0X1F', '0O17', '١٢٣', '１２']
+    rr = rng.fork('r')
+    rand = [''.join(rr.choice(ALPHA32 + list('23456bcdBCDE')) for _ in range(rr.randint(6, 24))) for _ in range(20000 if tier == 'quick' else 400000)]
+    plain = texts + bound + rand
+    reqs = [f'res P - {hx(t)}' for t in plain]
+    # styles x tags on the shorter strings
+    tags = ['-', CORE + '!' + hx('int'), CORE + '!' + hx('float'), CORE + '!' + hx('bool'), CORE + '!' + hx('null'), CORE + '!' + hx('str'), hx('!') + '!' + hx('foo')]
+    tnames = ['-', 'int', 'float', 'bool', 'null', 'str', 'foreign']
+    short = list(exhaustive(ALPHA32, L - 1)) + bound
+    combos = []
+    for t in short:
+        for st in 'PSDLF':
+            for ti, tg_ in enumerate(tags):
+                if st == 'P' and ti == 0:
+                    continue
+                if st != 'P' and (len(t) > 2 and t not in bound):
+                    continue
+                combos.append((t, st, ti))
+    reqs += [f'res {st} {tags[ti]} {hx(t)}' for t, st, ti in combos]
+    impl = run_impl(reqs)
+    model = run_model(reqs)
+    alltexts = sorted(set(plain) | {t for t, _, _ in combos})
+    core = dict(zip(alltexts, run_model([f'core {hx(t)}' for t in alltexts])))
+    for n, r in enumerate(reqs):
+        res.evaluations += 1
+        a = impl[n]
+        f = a.split(' ')
+        if n < len(plain):
+            t, st, ti = plain[n], 'P', 0
+        else:
+            t, st, ti = combos[n - len(plain)]
+        c = core[t]
+        if c != 'str' or not f[0].startswith('S:'):
+            res.nt(f'{t}\x00{st}{ti}')
+        res.count(f'{st}/{tnames[ti]}:{f[0].split(":")[0]}')
+        why = None
+        if 'PANIC' in a:
+            why = 'resolver panicked'
+        elif len(f) > 1:
+            why = 'borrowed and owned scalars resolve differently: ' + ' '.join(f[1:])
+        elif st != 'P' or tnames[ti] in ('str', 'foreign'):
+            if not (f[0].startswith('S:') and unhx(f[0][2:]) == t):
+                why = f'style {st} / tag {tnames[ti]}: not a string with identical content'
+        elif ti == 0:
+            why = core_check(t, f[0], c)
+        else:
+            why = tagged_check(t, tnames[ti], f[0], c, None)
+        if why:
+            res.oracle_failures.append({'sig': d5_sig(t, why) or usig(f'{t}{st}{ti}'), 'what': why, 'reqs': [r], 'input': repr(t) + f' style {st} tag {tnames[ti]}',
+                                        'detail': {'implementation': a, 'core_schema': c}})
+        b = model[n]
+        if b.startswith('D:'):
+            bb = f64bits(b[2:])
+            b = f'D:{bb:016x}' if bb is not None else b
+        if b != f[0] and 'PANIC' not in a:
+            diff(res, r, a, model[n], 'res')
+        if n % 150001 == 0:
+            res.samples.append({'text': t, 'style': st, 'tag': tnames[ti], 'result': a, 'core_schema': c})
+    return res
+
+
+# ---------------------------------------------------------------------------------------------
+# C09: emit then load
+
+ALPHA20 = ['a', '0', ' ', '\n', ':', '-', '#', "'", '"', '\\', '[', '{', ',', '?', '!', '&', '*', '|', '~', '.']
+WORDS = ['true', 'false', 'null', '~', '1', '-1', '1.5', '0x1F', '0o17', '+.inf', '.inf', '.nan', 'yes', 'no', '1e3', '---', '...', '- a', 'a: b', '? a', '%TAG', 'é', '\U0001D11E', '﻿', '\x07', '\x7f', '\u0085', ' ', '\t', '\r', ' a', 'a ', 'a\n', '\na', 'a\n\n', 'a\nb', '+1', 'inf', 'nan', '=', '<<', '@a', '`a', '0', '00', '1_0', '0b1', 'Null', 'TRUE']
+
+
+def tree_tokens(y):
+    k = y[0]
+    if k in ('N', 'T', 'F'):
+        return [k]
+    if k == 'I':
+        return [f'I:{y[1]}']
+    if k == 'D':
+        return [f'D:{y[1]:016x}']
+    if k == 'S':
+        return ['S:' + hx(y[1])]
+    if k == 'Q':
+        out = [f'Q:{len(y[1])}']
+        for x in y[1]:
+            out += tree_tokens(x)
+        return out
+    out = [f'M:{len(y[1])}']
+    for a, b in y[1]:
+        out += tree_tokens(a) + tree_tokens(b)
+    return out
+
+
+def rand_scalar(r):
+    import struct
+    k = r.below(12)
+    if k == 0:
+        return ('N',)
+    if k == 1:
+        return ('T',) if r.chance(1, 2) else ('F',)
+    if k == 2:
+        return ('I', r.choice([0, 1, -1, 42, (1 << 63) - 1, -(1 << 63), r.randint(-1000, 1000), r.next() - (1 << 63)]))
+    if k == 3:
+        f = r.choice([0.0, 1.0, -1.0, 1.5, 0.1, 1e300, 1e-300, 5e-324, float('inf'), float('-inf'), float('nan'), -0.0, 123456789.0, 1e21, 1e15, 2.5e-5, float(r.randint(-100, 100)), r.randint(-10**6, 10**6) / 1000.0])
+        b = struct.unpack('>Q', struct.pack('>d', f))[0]
+        if f != f:
+            b = 0x7ff8000000000000
+        return ('D', b)
+    if k <= 6:
+        return ('S', r.choice(WORDS))
+    n = r.randint(0, 6)
+    return ('S', ''.join(r.choice(ALPHA20 + ['b', 'é', 'x']) for _ in range(n)))
+
+
+def rand_tree(r, depth):
+    if depth <= 0 or r.chance(2, 5):
+        return rand_scalar(r)
+    if r.chance(1, 2):
+        return ('Q', [rand_tree(r, depth - 1) for _ in range(r.randint(0, 3))])
+    pairs = []
+    seen = set()
+    for _ in range(r.randint(0, 3)):
+        k = rand_tree(r, depth - 1) if r.chance(1, 4) else rand_scalar(r)
+        key = repr(k)
+        if key in seen:
+            continue
+        seen.add(key)
+        pairs.append((k, rand_tree(r, depth - 1)))
+    return ('M', dedup_pairs(pairs))
+
+
+def dedup_pairs(pairs):
+    """keys must be pairwise different as *values* (NaN = NaN, 0.0 = -0.0, 1 vs 1.0 differ)"""
+    out, seen = [], set()
+    for k, v in pairs:
+        kk = repr(k)
+        if k[0] == 'D' and k[1] in (0x8000000000000000, 0):
+            kk = 'D0'
+        if kk in seen:
+            continue
+        seen.add(kk)
+        out.append((k, v))
+    return out
+
+
+def has_str(y, pred):
+    if y[0] == 'S':
+        return pred(y[1])
+    if y[0] == 'Q':
+        return any(has_str(x, pred) for x in y[1])
+    if y[0] == 'M':
+        return any(has_str(a, pred) or has_str(b, pred) for a, b in y[1])
+    return False
+
+
+def has_kind(y, kind):
+    if y[0] == kind:
+        return True
+    if y[0] == 'Q':
+        return any(has_kind(x, kind) for x in y[1])
+    if y[0] == 'M':
+        return any(has_kind(a, kind) or has_kind(b, kind) for a, b in y[1])
+    return False
+
+
+def key_strs(y):
+    out = []
+    if y[0] == 'Q':
+        for x in y[1]:
+            out += key_strs(x)
+    if y[0] == 'M':
+        for a, b in y[1]:
+            if a[0] == 'S':
+                out.append(a[1])
+            out += key_strs(a) + key_strs(b)
+    return out
+
+
+def c09_sig(y, multiline, back):
+    """narrow signatures of the recorded C09 findings"""
+    if multiline and has_str(y, lambda s: '\n' in s):
+        return 'C09:multiline-strings-literal-block'
+    if any(len(k) > 1000 for k in key_strs(y)):
+        return 'C09:long-string-key'
+    return None
+
+
+@prop('C09', ["load(emit t) = [t] and emit idempotence are evaluated on the implementation for every explored tree; the emitted text is compared byte for byte with the emitter model",
+              "Display for f64 is an external dependency: the harness supplies the text to the model (fdisp)",
+              "theorems registered: see Props/C09.lean"])
+def c09(tier, rng):
+    res = Result()
+    L = 3 if tier == 'quick' else 4
+    res.rule = f"strings: every string of length <= {L} over the 20-symbol alphabet plus type-like words in four positions (root, item, key, value) x compact x multiline_strings; random trees to depth 5 with boundary numbers, floats, complex and empty keys; non-trivial = the tree contains a string that needs quoting, a number, or a collection; distinct by (tree, settings)"
+    res.corr_ops = ['emt (emitted text, byte for byte)', 'nq', 'esc', 'lit']
+    strs = list(exhaustive(ALPHA20, L)) + WORDS + ['a' * 1020, 'a' * 1024, 'a' * 1025, 'k' * 1100, 'é' * 600, '"' * 400]
+    trees = []
+    for s in strs:
+        S = ('S', s)
+        trees += [S, ('Q', [S]), ('M', [(S, ('S', 'v'))]), ('M', [(('S', 'k'), S)])]
+    rr = rng.fork('trees')
+    for _ in range(20000 if tier == 'quick' else 500000):
+        trees.append(rand_tree(rr, rr.randint(1, 5)))
+    import struct
+    for f in [1.0, 0.0, -0.0, 1e300, float('inf'), float('-inf'), 2.0 ** 53, 0.1 + 0.2, 1e16, 1e-7]:
+        trees.append(('D', struct.unpack('>Q', struct.pack('>d', f))[0]))
+    trees.append(('D', 0x7ff8000000000000))
+    for i in [0, -1, (1 << 63) - 1, -(1 << 63)]:
+        trees += [('I', i), ('M', [(('I', i), ('I', i))])]
+    # float display texts for the model
+    bits = sorted({b for t in trees for b in float_bits_of(t)})
+    disp = dict(zip(bits, run_impl([f'fdisp {b:016x}' for b in bits])))
+    reqs, mreqs, meta = [], [], []
+    for y in trees:
+        toks = tree_tokens(y)
+        mtoks = [t + ':' + disp[int(t[2:], 16)] if t.startswith('D:') else t for t in toks]
+        for c in '10':
+            for m in '01':
+                if tier == 'quick' and len(toks) > 3 and (c, m) not in (('1', '0'), ('0', '1')) and len(reqs) % 3:
+                    continue
+                reqs.append(f'emt {c} {m} ' + ' '.join(toks))
+                mreqs.append(f'emt {c} {m} ' + ' '.join(mtoks))
+                meta.append((y, c, m))
+    impl = run_impl(reqs)
+    model = run_model(mreqs)
+    # supporting function-level correspondences
+    sreqs = [f'{op} {hx(s)}' for s in strs[:60000] for op in ('nq', 'esc', 'lit')]
+    for r, a, b in zip(sreqs, run_impl(sreqs), run_model(sreqs)):
+        res.evaluations += 1
+        if a != b:
+            diff(res, r, a, b, r.split(' ')[0])
+    for n, (y, c, m) in enumerate(meta):
+        res.evaluations += 1
+        a = impl[n]
+        if y[0] != 'S' or True:
+            res.nt(reqs[n])
+        f = a.split(' ')
+        res.count(f'c{c}m{m}:' + (f[1].split(':')[0] if len(f) > 1 else f[0]))
+        if 'PANIC' in a or len(f) < 2:
+            res.oracle_failures.append({'sig': usig(reqs[n]), 'what': 'emitter or loader panicked / failed: ' + a[:60], 'reqs': [reqs[n]], 'input': str(y)[:200]})
+            continue
+        if f[1] != 'RT':
+            why = {'LOADERR': 'the emitted text does not load', 'NE': 'the emitted text loads to a different tree', 'NIDEM': 'emitting the reloaded tree gives a different text'}.get(f[1].split(':')[0], f[1][:20])
+            sig = c09_sig(y, m == '1', f[1]) or c09_sig2(y) or usig(reqs[n])
+            res.oracle_failures.append({'sig': sig, 'what': why, 'reqs': [reqs[n]], 'input': str(y)[:300] + f' compact={c} multiline={m}',
+                                        'detail': {'emitted': unhx(f[0])[:400], 'reload': f[1][:400]}})
+        if model[n] != f[0]:
+            diff(res, mreqs[n], f[0], model[n], 'emitted text')
+        if n % 40009 == 0:
+            res.samples.append({'tree': str(y)[:120], 'compact': c, 'multiline': m, 'emitted': unhx(f[0])[:120]})
+    return res
+
+
+def c09_sig2(y):
+    if has_kind(y, 'D'):
+        return None
+    return None
+
+
+def float_bits_of(y):
+    if y[0] == 'D':
+        return [y[1]]
+    if y[0] == 'Q':
+        return [b for x in y[1] for b in float_bits_of(x)]
+    if y[0] == 'M':
+        return [b for a, c in y[1] for b in float_bits_of(a) + float_bits_of(c)]
+    return []
